@@ -1,6 +1,7 @@
 import RedisGoModel.Driver.Util
 import RedisGoModel.Exec.Dispatch
 import RedisGoModel.Exec.Footprint
+import RedisGoModel.Exec.LockSeq
 import RedisGoModel.Conc.TraceCheck
 import RedisGoModel.Cluster.Snapshot
 /-! exec engine: `R` resets the model keyspace; `X <keys|*|-> <argv…> => <t0> <t1> <reply> <dump> fl=<…>` replays one command
@@ -173,14 +174,50 @@ def checkFootprint (plan : Footprint) (name : Bytes) (argv : List Bytes) (evs : 
         some s!"footprint: write footprint, but stripes {showPoses (locked.filter fun p => !lockedW.contains p)} were only read-locked"
       else none
 
-/-- the footprint clause of one exec line (only when the line carries both the event trace and the stripe table) -/
+/-- the lock scopes of one command's trace: a block runs from a first acquisition to the moment nothing is held; `none` when a block
+    mixes read and write acquisitions or the trace ends inside a block (the second is also reported by `checkEvents`) -/
+def blocksOf (evs : List TraceCheck.Ev) : Option (List LBlock) :=
+  let rec go : List TraceCheck.Ev → Nat → Option LBlock → List LBlock → Option (List LBlock)
+    | [], held, cur, acc => if held == 0 && cur.isNone then some acc.reverse else none
+    | .lock w p :: es, held, cur, acc =>
+      (match cur with
+       | none => go es (held + 1) (some (w, [p])) acc
+       | some (w', ps) => if w == w' then go es (held + 1) (some (w', ps ++ [p])) acc else none)
+    | .unlock _ _ :: es, held, cur, acc =>
+      (match cur with
+       | none => none
+       | some b => if held ≤ 1 then go es 0 none (b :: acc) else go es (held - 1) (some b) acc)
+    | .access _ _ :: es, held, cur, acc => go es held cur acc
+  go evs 0 none []
+
+def showBlocks (l : List LBlock) : String :=
+  " ".intercalate (l.map fun b => (if b.1 then "W[" else "R[") ++ ",".intercalate (b.2.map toString) ++ "]")
+
+/-- **acquisition order (C13)**: the blocks of the trace — which stripes, in which order, in which mode, block after block — must be one
+    of the block sequences of the model's lock program `Exec.lockProg` under the observed stripe table (`LProg.accepts`, proved to decide
+    membership in `LProg.runs`).  This subsumes the set comparison of `checkFootprint`, whose message is used when it has one. -/
+def checkLockOrder (env : Env) (name : Bytes) (argv : List Bytes) (evs : List TraceCheck.Ev) (kp : List Nat) : Option String :=
+  match lockPlan env argv with
+  | .whole => none
+  | plan =>
+    match blocksOf evs with
+    | none => some "lock order: the trace is not a sequence of single-mode lock scopes"
+    | some blocks =>
+      let stripe : Bytes → Nat := fun k => (posOfKey argv kp k).getD 0
+      let prog := lockProg stripe env argv blocks.length
+      if prog.accepts blocks then none
+      else match checkFootprint plan name argv evs kp with
+        | some m => some m
+        | none => some s!"lock order: observed lock scopes {showBlocks blocks} are not a block sequence of the model's lock program (without expiry: {showBlocks prog.main})"
+
+/-- the footprint / acquisition-order clause of one exec line (only when the line carries both the event trace and the stripe table) -/
 def checkFootprintLine (argv : List Bytes) (t0 t1 : Int) (fl : Nat → Option UInt64) (rest : List String) : Option String :=
   match rest.filter (·.startsWith "ev="), rest.filter (·.startsWith "kp=") with
   | [ev], [kps] =>
     match parseEvents ev, parseKp kps with
     | some evs, some kp =>
       let name := lower (argv.headD [])
-      let chk (now : Int) := checkFootprint (lockPlan { now := now, fl := fl } argv) name argv evs kp
+      let chk (now : Int) := checkLockOrder { now := now, fl := fl } name argv evs kp
       match chk t0 with
       | none => none
       | some bad => if t1 != t0 && (chk t1).isNone then none else some bad
